@@ -16,7 +16,8 @@ import SphericalVerif.Lemmas.DocHom
     Proved for all ℓ : ℕ and all |m'|, |m| ≤ ℓ, for ALL complex A = R_a, B = R_b (no unit-norm hypothesis, the
     identities are polynomial) except where stated:
       * `docD_hom`         D(A₁A₂ − conj(B₁)B₂, B₁A₂ + conj(A₁)B₂) = D(A₁, B₁)·D(A₂, B₂)
-      * `docD_diag`        D(A, 0)_{m',m} = δ_{m',m} A^{ℓ+m'} conj(A)^{ℓ−m'};  `docD_identity`  D(1, 0) = 1
+      * `docD_diag`        D(A, 0)_{m',m} = δ_{m',m} A^{ℓ+m'} conj(A)^{ℓ−m'};  `docD_identity`  D(1, 0) = 1;
+                           `docD_corner`  D(A, B)_{ℓ,ℓ} = A^{2ℓ}
       * `docD_inverse`     D(conj A, −B)_{m',m} = conj D(A, B)_{m,m'}
       * `docD_unitary_gen` D·D† = (|A|² + |B|²)^{2ℓ}·1;  `docD_unitary`  D·D† = 1 when |A|² + |B|² = 1
       * `docD_neg`         D(−A, −B) = D(A, B)
@@ -49,6 +50,10 @@ theorem docD_diag (ℓ : ℕ) (A : ℂ) (mp m : ℤ) (hmp : mp.natAbs ≤ ℓ) (
 theorem docD_identity (ℓ : ℕ) (mp m : ℤ) (hmp : mp.natAbs ≤ ℓ) (hm : m.natAbs ≤ ℓ) :
     docD ℓ 1 0 mp m = if mp = m then 1 else 0 :=
   identity_docD ℓ mp m hmp hm
+
+/-- the corner entry: D_{ℓ,ℓ} = R_a^{2ℓ} -/
+theorem docD_corner (ℓ : ℕ) (A B : ℂ) : docD ℓ A B ℓ ℓ = A ^ (2 * ℓ) :=
+  corner_docD ℓ A B
 
 /-! ### 3. inverse, unitarity -/
 
@@ -159,12 +164,13 @@ example (A B : ℂ) (mp m : ℤ) (hmp : mp.natAbs ≤ 2) (hm : m.natAbs ≤ 2) :
     docD 2 (conj A) (-B) mp m = conj (docD 2 A B m mp) ∧ docD 2 (-A) (-B) mp m = docD 2 A B mp m :=
   ⟨docD_inverse 2 A B mp m hmp hm, docD_neg 2 A B mp m hmp hm⟩
 
-/-- an instance with content, ℓ = 3 (beyond the brute-force range): the corner entry of a product.
-    D³(A, B)_{3,3} = A⁶ (`docD_corner` below), so (A₁A₂ − conj(B₁)B₂)⁶ = Σ_k D³(A₁,B₁)_{3,k} D³(A₂,B₂)_{k,3} -/
+/-- an instance with content, ℓ = 3 (beyond the brute-force range): the corner entry of a product,
+    D³(A, B)_{3,3} = A⁶ (`docD_corner`), so (A₁A₂ − conj(B₁)B₂)⁶ = Σ_k D³(A₁,B₁)_{3,k} D³(A₂,B₂)_{k,3} -/
 example (A1 B1 A2 B2 : ℂ) :
-    docD 3 (A1 * A2 - conj B1 * B2) (B1 * A2 + conj A1 * B2) 3 3
-      = ∑ k ∈ Finset.Icc (-3 : ℤ) 3, docD 3 A1 B1 3 k * docD 3 A2 B2 k 3 :=
-  docD_hom 3 A1 B1 A2 B2 3 3 (by decide) (by decide)
+    (A1 * A2 - conj B1 * B2) ^ 6 = ∑ k ∈ Finset.Icc (-3 : ℤ) 3, docD 3 A1 B1 3 k * docD 3 A2 B2 k 3 := by
+  have h := docD_hom 3 A1 B1 A2 B2 3 3 (by decide) (by decide)
+  rw [show ((3 : ℤ)) = ((3 : ℕ) : ℤ) from rfl, docD_corner 3] at h
+  exact h
 
 /-- the symmetry at (m', m) = (1, 0): D_{−1,0} = −conj D_{1,0}, every ℓ ≥ 1 -/
 example (ℓ : ℕ) (hℓ : 1 ≤ ℓ) (A B : ℂ) : docD ℓ A B (-1) 0 = -conj (docD ℓ A B 1 0) := by
